@@ -263,7 +263,7 @@ VF_SECTION(fd_reads, 16, 16, 240) {
         std::string cd = vf::fmt("%s on a %zu-byte source, size=%zu off=%zu; %s", fdfn_name[f], n, sz, off, small ? "every way of splitting the delivery into read() chunks (plus one EINTR)" : vf::fmt("answers {full,1,half,count-1,EINTR} per read() call, <=%d non-default answers", bound_big).c_str());
         if (r.wants_desc()) r.desc(cd);
         std::string key;
-        auto st = vfe::explore(g_env, [&] { key.clear(); return run_fd_case(c, path, d, &key); }, small ? -1 : bound_big, 2000000);
+        auto st = vfe::explore(g_env, [&] { r.beat(); key.clear(); return run_fd_case(c, path, d, &key); }, small ? -1 : bound_big, 2000000);
         r.transitions += st.choice_points;
         r.states += st.executions;
         r.counters["executions"] += st.executions;
@@ -380,7 +380,7 @@ VF_SECTION(stream_reads, 16, 16, 240) {
         std::string cd = vf::fmt("%s on a %zu-byte cookie stream, size=%zu; callback answers {full,1,half,count-1} with <=%d non-default answers", stfn_name[f], n, sz, bound);
         if (r.wants_desc()) r.desc(cd);
         std::string key;
-        auto st = vfe::explore(g_env, [&] { key.clear(); return run_stream_case((StFn)f, d, sz, &key); }, bound, 2000000);
+        auto st = vfe::explore(g_env, [&] { r.beat(); key.clear(); return run_stream_case((StFn)f, d, sz, &key); }, bound, 2000000);
         r.transitions += st.choice_points;
         r.states += st.executions;
         r.counters["executions"] += st.executions;
